@@ -32,6 +32,8 @@ Inductive tok :=
 | TVar (s : str)                 (* $name, $1, and (s empty) the dollar of $? $@ $* $! $- *)
 | TArith (l : list tok)          (* $((...)) *)
 | TDqx (l : list tok)            (* "..." with expansions inside *)
+| THs                            (* the here-string operator <<< (function level) *)
+| TSub (l : list tok)            (* $(...) holding one simple command of flat tokens *)
 | TBr (l : list tok)             (* {...} *)
 | TPar (l : list tok).           (* (...) *)
 
@@ -81,6 +83,8 @@ Fixpoint render_tok (t : tok) : str :=
   | TVar s => cDOL :: s
   | TArith l => [cDOL; cLP; cLP] ++ flat_map render_tok l ++ [cRP; cRP]
   | TDqx l => [cDQ] ++ flat_map render_tok l ++ [cDQ]
+  | THs => [cLT; cLT; cLT]
+  | TSub l => [cDOL; cLP] ++ flat_map render_tok l ++ [cRP]
   | TBr l => [cLB] ++ flat_map render_tok l ++ [cRB]
   | TPar l => [cLP] ++ flat_map render_tok l ++ [cRP]
   end.
@@ -186,51 +190,6 @@ Definition value_ok (v : qvalue) : bool :=
 Definition lit_char (c : N) : bool :=       (* harmless everywhere *)
   negb (mem c [cNUL; cSQ; cDQ; cBQ; cLP; cRP; cDOL; cBS; cHASH; cLB; cRB; cLT; cSEMI; cNL]).
 Definition pe_char (c : N) : bool := negb (mem c [cNUL; cRB; cDOL]).
-Definition dq_char (c : N) : bool := negb (mem c [cNUL; cDQ; cBS; cDOL; cBQ]).
-Fixpoint tok_ok (inner : bool) (t : tok) : bool :=
-  match t with
-  | TLit c => lit_char c || (inner && ((c =? cSEMI) || (c =? cNL) || (c =? cLT)))
-  | TEsc c => negb (c =? cNUL)
-  | TSq s => forallb sq_char s
-  | TDq l => forallb dq_pair l
-  | TPE s => forallb pe_char s
-  | TAnsi l => forallb ansi_pair l
-  | TVar s => forallb is_ident s
-  | TArith l => forallb (tok_ok true) l
-  | TDqx l =>
-      forallb (fun d => match d with
-                        | TLit c => dq_char c
-                        | TEsc c => negb (c =? cNUL)
-                        | TPE s => forallb pe_char s
-                        | TVar s => forallb is_ident s
-                        | TArith l2 => forallb (tok_ok true) l2
-                        | _ => false
-                        end) l
-  | TBr l => forallb (tok_ok true) l
-  | TPar l => forallb (tok_ok true) l
-  end.
-(* function level: a closing parenthesis is harmless there (case patterns) *)
-Definition tok_ok1 (t : tok) : bool :=
-  match t with TLit c => lit_char c || (c =? cRP) | _ => tok_ok false t end.
-
-(* "$name" swallows the identifier characters that follow, so the character after a TVar must
-   end the name; after a bare "$" it must moreover not open another kind of expansion *)
-Definition var_follow (s : str) (c : N) : bool :=
-  negb (isalnum c) && negb (c =? cUS) && negb (c =? cDOL)
-  && (nonempty s || negb (mem c [cLP; cLB; cSQ])).
-Definition follow_ok (t : tok) (r : list tok) : bool :=
-  match t with
-  | TVar s => match render_toks r with [] => true | c :: _ => var_follow s c end
-  | _ => true
-  end.
-Fixpoint follows (l : list tok) : bool :=
-  match l with [] => true | t :: r => follow_ok t r && follows r end.
-Fixpoint deep_follow (t : tok) : bool :=
-  match t with
-  | TBr l | TPar l | TArith l | TDqx l => follows l && forallb deep_follow l
-  | _ => true
-  end.
-
 (* the text of a statement must not look like an assignment or a function header to the
    scanner: before the first blank/quote/paren/dash there is no '=', and the first word is not
    followed by "(" *)
@@ -262,7 +221,70 @@ Definition stmt_start_ok (text : str) : bool :=
       negb (isspace c) && negb (c =? cHASH) && negb (c =? cRB) && negb (c =? cNUL)
       && diverges kw_function text
       && no_eq_before_stop text
-      && match word_then text with Some d => negb (d =? cLP) | None => false end
+      && (name_stop c || match word_then text with Some d => negb (d =? cLP) | None => false end)
+  end.
+
+(* "$name" swallows the identifier characters that follow, so the character after a TVar must
+   end the name; after a bare "$" it must moreover not open another kind of expansion *)
+Definition var_follow (s : str) (c : N) : bool :=
+  negb (isalnum c) && negb (c =? cUS) && negb (c =? cDOL)
+  && (nonempty s || negb (mem c [cLP; cLB; cSQ])).
+Definition follow_ok (t : tok) (r : list tok) : bool :=
+  match t with
+  | TVar s => match render_toks r with [] => true | c :: _ => var_follow s c end
+  | _ => true
+  end.
+Fixpoint follows (l : list tok) : bool :=
+  match l with [] => true | t :: r => follow_ok t r && follows r end.
+Definition flat_tok (t : tok) : bool :=
+  match t with
+  | TLit c => lit_char c
+  | TEsc c => negb (c =? cNUL)
+  | TSq s => forallb sq_char s
+  | TDq l => forallb dq_pair l
+  | TPE s => forallb pe_char s
+  | TAnsi l => forallb ansi_pair l
+  | TVar s => forallb is_ident s
+  | _ => false
+  end.
+(* the single command inside $(...): flat tokens, not an assignment or function header, not empty *)
+Definition sub_ok (l : list tok) : bool :=
+  forallb flat_tok l && follows l && stmt_start_ok (render_toks l ++ [cRP])
+  && match render_toks l with c :: _ => negb (c =? cRP) | [] => false end.
+Definition dq_char (c : N) : bool := negb (mem c [cNUL; cDQ; cBS; cDOL; cBQ]).
+Fixpoint tok_ok (inner : bool) (t : tok) : bool :=
+  match t with
+  | TLit c => lit_char c || (inner && ((c =? cSEMI) || (c =? cNL) || (c =? cLT)))
+  | TEsc c => negb (c =? cNUL)
+  | TSq s => forallb sq_char s
+  | TDq l => forallb dq_pair l
+  | TPE s => forallb pe_char s
+  | TAnsi l => forallb ansi_pair l
+  | TVar s => forallb is_ident s
+  | TArith l => forallb (tok_ok true) l
+  | TDqx l =>
+      forallb (fun d => match d with
+                        | TLit c => dq_char c
+                        | TEsc c => negb (c =? cNUL)
+                        | TPE s => forallb pe_char s
+                        | TVar s => forallb is_ident s
+                        | TArith l2 => forallb (tok_ok true) l2
+                        | TSub l2 => sub_ok l2
+                        | _ => false
+                        end) l
+  | THs => negb inner
+  | TSub l => sub_ok l
+  | TBr l => forallb (tok_ok true) l
+  | TPar l => forallb (tok_ok true) l
+  end.
+(* function level: a closing parenthesis is harmless there (case patterns) *)
+Definition tok_ok1 (t : tok) : bool :=
+  match t with TLit c => lit_char c || (c =? cRP) | _ => tok_ok false t end.
+
+Fixpoint deep_follow (t : tok) : bool :=
+  match t with
+  | TBr l | TPar l | TArith l | TDqx l => follows l && forallb deep_follow l
+  | _ => true
   end.
 
 Definition stmt_ok (s : stmt) (following : str) : bool :=
